@@ -125,8 +125,13 @@ struct GpCase { Paths64 subj, clip; std::string shape; };
 // one raw G-gp candidate; R = base coordinate range
 inline GpCase gpCandidate(int64_t R) {
   GpCase c;
-  int kind = (int)G::range(0, 10);
-  if (kind <= 4) {
+  int kind = (int)G::range(0, 11);
+  if (kind == 11) {
+    c.shape = "dense";   // many edges and crossings per path (needs a large range to stay in general position)
+    c.subj.push_back(randomPath(15, 32, R));
+    c.clip.push_back(randomPath(10, 28, R));
+    if (G::coin()) c.subj.push_back(randomPath(3, 12, R));
+  } else if (kind <= 4) {
     c.shape = "random";
     int ns = (int)G::range(1, 3), nc = (int)G::range(0, 3);
     int vmax = (int)G::range(3, 10);
